@@ -174,6 +174,21 @@ def check_C02(ctx):
 C08_HISTORIES = ["H1-upload", "H1z-upload-3-chunks", "H2-ac-overwrite", "H3-wrong-hash-cleanup", "H4-evict", "H5-backend-fetch"]
 
 
+def check_C10(ctx):
+    th = ctx.thorough()
+    g = ctx.bin(GRID)
+    jobs = []
+    for mode in ("zstd", "uncompressed"):
+        jobs.append(Job(g, "TestC10", name="C10:lists/" + mode, timeout=900, env={"VERIF_PARAM_MODE": mode}))
+        jobs.append(Job(g, "TestC10Backend", name="C10:backend/" + mode, timeout=900, env={"VERIF_PARAM_MODE": mode}))
+    jobs += e1_jobs(ctx, "C10", ["S9-findmissing-vs-puts"], 3 if th else 2, 4 if th else 2, 1200 if th else 120, oracle="C10")
+    jobs += e2cache_jobs(ctx, "C10", 4 if th else 3, 1200 if th else 100, 2, proxies=("0", "1"))
+    return dict(level="exploration", jobs=jobs,
+                rule="request lists of every length 0..45 with a single missing / single present / size-mismatched / empty digest at every index, all 2^8 (2^10 thorough) present/absent patterns in windows straddling the internal batch boundaries at 20 and 40, duplicates adjacent and 21 apart; with a backend every assignment of {local, backend only, absent, backend over max_proxy_blob_size, backend with another size}^4 (^5) at the list head and across the boundary; all <=2/3-preemption schedules of FindMissing over 25 digests against two concurrent uploads; FindMissing inside BFS operation sequences; non-trivial = distinct request shapes answered exactly",
+                assumptions=["through the real gRPC handler over bufconn; backend = scriptable cache.Proxy answering synchronously",
+                             "the fail-fast variant of the join (used by action-cache validation) is covered under C06"] + E1_ASSUME)
+
+
 def check_C12(ctx):
     th = ctx.thorough()
     b = ctx.bin(DISK)
@@ -259,7 +274,7 @@ def check_C13(ctx):
                              "a method unknown to the harness's read-only list is treated as mutating"])
 
 
-CHECKS = {"C01": check_C01, "C02": check_C02, "C08": check_C08, "C09": check_C09, "C12": check_C12, "C13": check_C13, "C17": check_C17, "C03": check_C03, "C04": check_C04, "C05": check_C05, "C07": check_C07}
+CHECKS = {"C01": check_C01, "C02": check_C02, "C08": check_C08, "C09": check_C09, "C10": check_C10, "C12": check_C12, "C13": check_C13, "C17": check_C17, "C03": check_C03, "C04": check_C04, "C05": check_C05, "C07": check_C07}
 
 # per-property manifest metadata
 META = {
@@ -293,6 +308,12 @@ META = {
         note="Retry-after-drain is required only when the item fits under the limit next to what is accounted after the drain (with limit close to max_size a full cache refuses large items permanently: admission precedes eviction by design).",
         technique="explicit-state BFS + preemption-bounded schedule DFS over the real code with the remover under scheduler control",
         design_ref="DESIGN.md 3 (C17)"),
+    "C10": dict(
+        category="exploration", engine="E4 grid + E1 vsched + E2 seqx",
+        text="Bounded-exhaustive enumeration of FindMissingBlobs request lists through the real gRPC handler (lengths 0..45; every index for single-missing, single-present, size-mismatch and empty-digest lists; all present/absent patterns in windows across the internal batch size of 20; duplicates), with a scriptable backend all 5^k assignments of {local, backend only, absent, too large for max_proxy_blob_size, other size in backend} at the head and across the batch boundary; every schedule (bounded preemptions) of a 25-digest call against two concurrent uploads; and FindMissing as an operation in the explicit-state search. Oracle: response == requested digests the model says absent, same order, duplicates kept.",
+        note="Lists beyond 45 digests only add further full batches of 20, which the code handles by the same loop iteration.",
+        technique="exhaustive input enumeration through the real handler + schedule DFS + explicit-state BFS",
+        design_ref="DESIGN.md 3 (C10)"),
     "C12": dict(
         category="fault_enumeration", engine="E3 faultx + E2 seqx",
         text="Deviation-bounded enumeration of backend behaviour against the real disk cache: at the cache.Proxy seam every kind x storage mode x size known/unknown x plain/zstd read x {error, not found, nil reader, five size-metadata lies, one-byte reads, cancelled context, stream error at every byte offset, clean EOF at every byte offset} (pairs in the thorough tier), followed by a fault-free read, a local-only read with the backend emptied (poisoning) and the quiescence invariants (reserved 0, directory == index, every backend stream closed); through the real httpproxy (in front of a plain HTTP object store with a fault layer cutting responses at every byte, 404/500, no Content-Length; two identical rounds must not grow goroutines/fds) and the real grpcproxy chained to a second real cache (write-through reaches the backend once and a fresh peer recovers the identical blob; absent entries miss without panic); plus BFS over operation sequences with a backend (write-through exactly once and decodable by the independent format reader).",
